@@ -17,7 +17,7 @@ from vf.worker import exc_sig
 LEVEL = "exploration"
 RULE = ("generated models with 1-3 delay() calls (inside and outside for-loops, with and without expand_vectors) "
         "whose durations depend on literal/constant/parameter/fixed input/non-fixed input/algebraic/state/"
-        "derivative/time, singly and mixed; distinct = digest of (model text, options); non-trivial = every model "
+        "derivative/time, singly and mixed, and pairs of durations differing beyond the sixth significant digit; distinct = digest of (model text, options); non-trivial = every model "
         "(each has >=1 delay with a category-specific duration)")
 ASSUMPTIONS = ["duration expressions contain no cancelling terms, so syntactic dependence = functional dependence",
                "(expression, duration) pairs are compared as a multiset: the order of delay arguments is not part of the property"]
